@@ -15,8 +15,8 @@ RULE = (
     "limits(ParentMinSpeed+ParentSpeedRatio, own speed answered to GetUserStats: documented child limit 0/1/3/11, "
     "acceptance off/on), reset (ResetDistributed), session_loss (server RST; optionally 1-2 peer events applied "
     "while the client has no session; then connect_server + login by the harness, reconnect.auto is off). Per case: "
-    "connect mode race|fallback, per peer reaction to a relayed ConnectToPeer (pierce|cannot|ignore). First 66 "
-    "cases: 33 hand-written sequences of length 1-5 (x both connect modes) so that the lowest-numbered witness is a "
+    "connect mode race|fallback, per peer reaction to a relayed ConnectToPeer (pierce|cannot|ignore). First 82 "
+    "cases: 41 hand-written sequences of length 1-8 (x both connect modes) so that the lowest-numbered witness is a "
     "short one; then seeded sequences whose length is non-decreasing in the case number (2..10). Even cases "
     "separate events by 0.5 virtual s of quiescence (history quantifier); odd cases fire bursts of 2-4 events with "
     "gaps of 0-3 loop yields / 1-8 ms, every remote party applying its own events in order (schedule quantifier), "
